@@ -8,7 +8,7 @@ from ..core import Failure
 from ..model import MP, arr_map, first_diff
 
 ID = "C01"
-BUDGET = {"quick": 800, "thorough": 2000}
+BUDGET = {"quick": 800, "thorough": 6000}
 TECHNIQUE = 'Hypothesis expression-tree generation vs exact polynomial model + ring-law metamorphic relations'
 LEVEL_TEXT = 'Every node of generated expression trees (depth <= 4, mixed operand kinds, broadcast families, equal/overlapping/disjoint names) is compared with an independent exact model; ring laws are metamorphic relations on the same leaves.'
 FUZZ_RUNS = {"thorough": 3000}  # atheris/libFuzzer campaign over the same strategy and oracle
